@@ -1,4 +1,4 @@
-import DcmVerif.Props.Source
+import DcmVerif.Props.SourceMeta
 import DcmVerif.Props.C05_wrap
 import DcmVerif.Proofs.Total
 /-! Property theorems for C05. Statements only; proofs are by reference to `Proofs/`. -/
